@@ -688,6 +688,8 @@ func (pt *refPoint) accepts(v float64) bool {
 //	       b <= t <= b + range - step (grid points whose whole step lies inside the bucket);
 //	exist  at a grid point in the last, partial step of a non-zero bucket some point of L exists (sound => value of
 //	       this or the next bucket);
+//	first  step > range and from on the epoch's step grid: a non-zero bucket that starts at a grid point is reported there
+//	       with its own value;
 //	ties   topk/bottomk: at grid points of the `there` kind exactly the needed number of tied candidates appears.
 //
 // Values equal to 0 may be absent (ZeroEaterPlanner; the statement does not distinguish 0 from no value).
@@ -785,6 +787,26 @@ func compare(ref *Ref, impl []Point, p Params) (kind, diff string) {
 						continue
 					}
 					return "missing", fmt.Sprintf("series %s: no point at grid point t=%s inside bucket %s (value %g)", l, tsText(t), tsText(b), rp.V)
+				}
+			}
+		}
+	}
+	// step > range with `from` on the step grid of the epoch: a grid point is the start of the first range bucket of its
+	// step; if that bucket has a non-zero value the point must carry it (a later bucket of the step must not replace it)
+	if step > rng && floorDiv(T0+from, step)*step == T0+from && rng > 0 && step%rng == 0 {
+		for _, l := range keys {
+			s := ref.Series[l]
+			for t := from; t <= to; t += step {
+				rp := s.Buckets[t]
+				if rp == nil || rp.Wild || rp.Opt || rp.V == 0 || containsZero(rp.Alt) {
+					continue
+				}
+				v, have := seen[key{l, t}]
+				if !have {
+					return "missing", fmt.Sprintf("series %s: bucket %s (value %g) starts at grid point t=%s but is not reported there", l, tsText(t), rp.V, tsText(t))
+				}
+				if !rp.accepts(v) {
+					return "value", fmt.Sprintf("series %s t=%s: value %g, but the bucket starting at t has %g", l, tsText(t), v, rp.V)
 				}
 			}
 		}
